@@ -381,6 +381,7 @@ def run(ctx, P):
     r2.events_are_lossless(ctx, P, "C13j")
     r2.followup_needs_open_browse(ctx, P, "C13k")
     clause_cache_only_everywhere(ctx, P)
+    r2.stop_forgets_every_record_kind(ctx, P, "C13m")
     clause_stop_forgets_addresses(ctx, P)
     clause_stop_paths(ctx, P)
     clause_a(ctx, P)
